@@ -4,7 +4,7 @@
 import json,subprocess,sys,re
 did,props,rule,subject,what,row=sys.argv[1:7]
 props=props.split(',')
-c=subprocess.run("git -C /repo log --format=%h -1",shell=True,capture_output=True,text=True).stdout.strip()
+c=sys.argv[7] if len(sys.argv)>7 else subprocess.run("git -C /repo log --format=%h -1",shell=True,capture_output=True,text=True).stdout.strip()
 p='/verif/tools/make_mutants.py'
 s=open(p).read()
 i=s.index(']\nn=0\nfor sub,props,expect in REV:')
